@@ -151,6 +151,11 @@ func (p *ProjectionParser) makeProjection(s *Projection, q string, proj parse.Fi
 	var filter filterFn
 	makeFilter := func(ext extractor) {}
 	if proj.Order == "fixed" {
+		if len(proj.Fixed) == 0 {
+			// The order name "fixed" spelled out (key@fixed) has no
+			// value list; like key@() it would match nothing.
+			return nil, &parse.SyntaxError{q, proj.OrderOff, "nothing to match"}
+		}
 		fixedMap := make(map[string]int, len(proj.Fixed))
 		for i, s := range proj.Fixed {
 			fixedMap[s] = i
